@@ -1,7 +1,7 @@
 //! C12 — deleting a subscription releases the consumers waiting on it.
 //!
 //! Episode: a subscription with 1-4 open StreamingPulls (request side open or
-//! closed), 0-3 blocked Pulls and 0-10 (sometimes 17-70) in-flight ack/modify/pull calls is
+//! closed), 0-3 blocked Pulls and 0-10 (sometimes 17-70) in-flight ack/modify/pull calls (and creates of the same name) is
 //! deleted, optionally racing a publish. One virtual second after the delete
 //! returned OK (and again after one virtual hour) the monitor looks at every
 //! consumer (Q-del, DESIGN 4/C12).
@@ -145,6 +145,22 @@ async fn episode(p: &EpParams) -> EpReport {
                     }
                 }
             }));
+            // a third of the episodes: other clients create the same name again, a few scheduler
+            // turns after the delete was issued (inside the deletion window, if the schedule has it so)
+            if rng.chance(1, 3) {
+                for j in 0..rng.range(1, 3) {
+                    let (cx, s3, t3) = (Cx::new(&w, 70 + j as u32), s.clone(), t.clone());
+                    let turns = rng.below(12);
+                    kinds.push("CreateSame");
+                    inflight.push(("CreateSame", tokio::spawn(async move {
+                        for _ in 0..turns {
+                            tokio::task::yield_now().await;
+                        }
+                        cx.create_sub(&s3, &t3, 10).await.map(|_| ()).map_err(|e| e.code() as i32)
+                    })));
+                }
+                rep.inc("same_name_created_around_the_delete");
+            }
             if race_publish {
                 let cx = Cx::new(&w, 2);
                 let t2 = t.clone();
@@ -157,15 +173,19 @@ async fn episode(p: &EpParams) -> EpReport {
         let cx = Cx::new(&w, 30 + i as u32);
         let s2 = s.clone();
         let ids = lease_ids.clone();
-        let k = rng.below(4);
-        let kind = ["Ack", "Modify", "PullRI", "GetSub"][k as usize];
+        // (one call in eight creates the same name again: inside the deletion window it is refused or
+        // has to wait for the name; either way the consumers of the old subscription are released)
+        let k = if rng.chance(1, 8) { 4 } else { rng.below(4) };
+        let kind = ["Ack", "Modify", "PullRI", "GetSub", "CreateSame"][k as usize];
         kinds.push(kind);
         let secs = *rng.pick(&[0, 30, 600]);
+        let t3 = t.clone();
         inflight.push((kind, tokio::spawn(async move {
             match k {
                 0 => cx.ack(&s2, &ids).await.map_err(|e| e.code() as i32),
                 1 => cx.modify(&s2, &ids, secs).await.map_err(|e| e.code() as i32),
                 2 => cx.pull(&s2, 5, true).await.map(|_| ()).map_err(|e| e.code() as i32),
+                4 => cx.create_sub(&s2, &t3, 10).await.map(|_| ()).map_err(|e| e.code() as i32),
                 _ => cx.get_sub(&s2).await.map(|_| ()).map_err(|e| e.code() as i32),
             }
         })));
